@@ -19,10 +19,13 @@ pub struct Variable {
 impl Variable {
     pub(crate) fn new(span: Span, ident: Ident, local: &LocalEnv) -> Result<Self, Error> {
         if local.variable(&ident).is_none() {
-            let idents = local
+            let mut idents = local
                 .variable_idents()
                 .map(std::clone::Clone::clone)
                 .collect::<Vec<_>>();
+            // the identifiers come out of a hash map: sort them so that the "did you mean"
+            // suggestion (the first one at the minimal distance) does not depend on its order
+            idents.sort();
 
             return Err(Error::undefined(ident, span, idents));
         }
